@@ -414,7 +414,8 @@ void ConditionVariableAcquisitionImpl__wait_for(struct ConditionVariableAcquisit
                       ACT(self).model_action_, ACT(self).state_, g_m.owner_, g_lock_calls, g_lock_issuer, g_mwait_calls,
                       g_registered, SIMCALLS_N(self), g_sleeps, g_sleep_duration, g_timer.__b_Action.activity_,
                       self->mc_timeout_)
-    __CPROVER_assigns(!self->granted_ && timeout > 0.0 && MC_ON : g_cv.ongoing_acquisitions_.n,
+    /* (>= 0: also right once the zero-timeout finding is repaired by `timeout >= 0` in the code) */
+    __CPROVER_assigns(!self->granted_ && timeout >= 0.0 && MC_ON : g_cv.ongoing_acquisitions_.n,
                       __CPROVER_object_whole(g_qd), __CPROVER_object_whole(g_actv), ACTV_NS, g_result_set,
                       g_result_value, g_result_obs)
     __CPROVER_ensures((vf_exc == VF_EXC_ABORT) == (!__CPROVER_isfinited(timeout) || issuer != self->issuer_))
